@@ -60,9 +60,8 @@ func (check fieldConstraints) checkType(t *meta.Type, v val.Value) error {
 				// the items of a binary leaf-list are kept as their base64 text
 				octets, _ = base64.StdEncoding.DecodeString(item.String())
 			}
-			n := val.Int32(len(octets))
 			for _, length := range t.Length() {
-				if lerr := length.CheckValue(n); lerr != nil {
+				if lerr := length.CheckLength(len(octets)); lerr != nil {
 					err = fmt.Errorf("binary length %d outside allowed lengths %s", len(octets), length)
 					return
 				}
@@ -182,9 +181,9 @@ func (fieldConstraints) patternCheck(s string, patterns []*meta.Pattern) error {
 
 func (fieldConstraints) lenCheck(s string, lengths []*meta.Range) error {
 	// length is in characters, not bytes and like range, inside the length of every level
-	n := val.Int32(utf8.RuneCountInString(s))
+	n := utf8.RuneCountInString(s)
 	for _, length := range lengths {
-		if err := length.CheckValue(n); err != nil {
+		if err := length.CheckLength(n); err != nil {
 			return fmt.Errorf("string length outside allowed lengths %s. %s", length, s)
 		}
 	}
